@@ -456,7 +456,7 @@ impl VideoState {
           // cleanly when drawing 4 dots at a time, for each machine cycle.
           if self.current_mode_dots >= 188 {
             self.current_mode_dots -= 188;
-            if self.current_line < 144 {
+            if self.current_line < 143 {
               self.current_line += 1;
               self.current_mode = 2;
               interrupt_state |= self.check_mode_interrupt();
@@ -464,10 +464,13 @@ impl VideoState {
               // pre-compute up to 10 sprites that overlap the current line
               self.find_current_line_sprites(vram, oam);
             } else {
-              // On line 144, enter VBLANK and set appropriate flags
+              // After the last visible line, line 144 begins: enter VBLANK
+              // and set appropriate flags
+              self.current_line = 144;
               self.current_mode = 1;
               self.lcd.swap_buffers();
               interrupt_state |= self.check_mode_interrupt();
+              interrupt_state |= self.check_current_line();
               interrupt_state |= InterruptFlag::vblank();
             }
           }
